@@ -30,6 +30,7 @@ THEOREMS = {
     "C07": [("XV.Macro.loop_partition", _PM), ("XV.Macro.param_is_concat", _PM), ("XV.Macro.concat_is_source_slice", _PM)],
     "C08": [("XV.Tz.pseudo_token_is_source_slice", "XonshVerif.Proofs.Tiling"), ("XV.Tz.handleEndProgs_adv", _PT), ("XV.Tz.nextPseudo_adv", _PT), ("XV.Tz.scanLine_no_loopFuel", _PT)],
     "C11": [("XV.Helpers.error_wellformed", _HELP)],
+    "C15": [("XV.Peg.parse_verbose", "XonshVerif.Properties.C15"), ("XV.Peg.execRule_verbose", "XonshVerif.Properties.C15"), ("XV.Peg.vinv", "XonshVerif.Proofs.PegVerbose")],
     "C18": [("XV.Peg.no_multi_edge_on_cycle", _PC), ("XV.Peg.memo_hit_is_constant", _PC)],
     "C02": _INERT,
     "C05": _INERT,
@@ -228,12 +229,12 @@ def _peg_sources(pid, tier, n_gen, damaged=True, xonsh=True):
     return srcs
 
 
-def corr_peg(pid, n_quick=250, n_thorough=6000, **kw):
+def corr_peg(pid, n_quick=250, n_thorough=6000, verbose=False, **kw):
     def run(rep, tier):
         from harness import corr
 
-        cases = corr.peg_cases(_peg_sources(pid, tier, n_quick if tier == "quick" else n_thorough, **kw))
-        bad = corr.run_peg_correspondence(rep, cases)
+        cases = corr.peg_cases(_peg_sources(pid, tier, n_quick if tier == "quick" else n_thorough, **kw), verbose=verbose)
+        bad = corr.run_peg_correspondence(rep, cases, name="recogniser-IR, verbose=True" if verbose else "recogniser-IR", verbose=verbose)
         for b in bad[:3]:
             rep.extra.setdefault("correspondence_disagreements", []).append(b)
 
@@ -322,6 +323,7 @@ CORR = {
     "C05": [corr_peg("C05")],
     "C03": [corr_peg("C03"), corr_tok("C03"), corr_pipeline("C03")],
     "C18": [corr_peg("C18")],
+    "C15": [corr_peg("C15", n_quick=150, n_thorough=3000), corr_peg("C15", n_quick=150, n_thorough=3000, verbose=True)],
     "C08": [corr_tok("C08")],
     "C09": [corr_tok("C09")],
     "C10": [corr_tok("C10")],
